@@ -387,6 +387,12 @@ func RunKinds(c *core.Ctx) {
 						missing = append(missing, k)
 					}
 				}
+				// "special cases first": every arm leaves the function and the switch is followed by code that does
+				// not simply give up: the kinds without an arm are handled by what follows
+				if len(missing) > 0 && specialCaseSwitch(fd, sw) {
+					c.Ok("T.kinds", con, "special-case switch (every arm returns); the other kinds are handled by the code that follows", pos, src)
+					return true
+				}
 				c.Check(len(missing) == 0, "T.kinds", con, "covers "+why, fmt.Sprintf("switch without default omits %v: fields of these kinds silently get no code", missing), pos, src)
 				return true
 			})
@@ -1014,4 +1020,52 @@ func RunFlow(c *core.Ctx) {
 		})
 	}
 	c.Check(okUnknown, "T.flow", "generator.findFeatures unknown feature", "an unknown feature name returns an error", "unknown feature names do not produce an error", "", src)
+}
+
+// specialCaseSwitch: sw is a statement of some block, each of its arms ends in return or panic, and the statement
+// that follows it in that block exists and is not itself a bare panic.
+func specialCaseSwitch(fd *ast.FuncDecl, sw *ast.SwitchStmt) bool {
+	for _, cs := range sw.Body.List {
+		cc := cs.(*ast.CaseClause)
+		if len(cc.Body) == 0 {
+			return false
+		}
+		switch t := cc.Body[len(cc.Body)-1].(type) {
+		case *ast.ReturnStmt:
+		case *ast.ExprStmt:
+			call, ok := t.X.(*ast.CallExpr)
+			if !ok {
+				return false
+			}
+			if id, ok := call.Fun.(*ast.Ident); !ok || id.Name != "panic" {
+				return false
+			}
+		default:
+			return false
+		}
+	}
+	found := false
+	ast.Inspect(fd.Body, func(n ast.Node) bool {
+		var list []ast.Stmt
+		switch t := n.(type) {
+		case *ast.BlockStmt:
+			list = t.List
+		case *ast.CaseClause:
+			list = t.Body
+		}
+		for i, st := range list {
+			if st == ast.Stmt(sw) && i+1 < len(list) {
+				if es, ok := list[i+1].(*ast.ExprStmt); ok {
+					if call, ok := es.X.(*ast.CallExpr); ok {
+						if id, ok := call.Fun.(*ast.Ident); ok && id.Name == "panic" {
+							return false
+						}
+					}
+				}
+				found = true
+			}
+		}
+		return true
+	})
+	return found
 }
